@@ -221,13 +221,27 @@ def run_trace(ctx, box):
         rows = vlib.read_ndjson(tout)
         if rc != 0 or not rows:
             raise vlib.Inconclusive("C03 trace driver did not complete:\n" + out[-3000:])
-        r = ctx.tlc("TraceAccess", "TraceAccess.cfg", workers=1, extra_files=[(tout, "trace.ndjson")], timeout=1200, heap="4g")
+        # Canary (binding demonstration, every run): a copy of a recorded UDP
+        # request with the outcome forged to "refused" -- never admissible over
+        # UDP -- is appended; TraceAccess.tla must reject exactly that line too.
+        udp = [r for r in rows if r["k"] == "req" and r["areq"]["proto"] == "udp" and r["lvl"] == "handler"]
+        if not udp:
+            raise vlib.Inconclusive("vacuous: the trace has no UDP request")
+        canary = dict(udp[-1], out="refused", canary=True)
+        tcan = ctx.path("c03_trace_canary.ndjson")
+        with open(tout) as fh, open(tcan, "w") as out_fh:
+            out_fh.write(fh.read())
+            out_fh.write(json.dumps(canary, sort_keys=True) + "\n")
+        r = ctx.tlc("TraceAccess", "TraceAccess.cfg", workers=1, extra_files=[(tcan, "trace.ndjson")], timeout=1200, heap="4g")
         if not r["vectors"]:
             raise vlib.Inconclusive("trace spec produced no verdict")
         verdict = r["vectors"][-1]
-        if verdict["n"] != len(rows):
-            raise vlib.Inconclusive("trace spec consumed %s of %d lines" % (verdict["n"], len(rows)))
-        box["rows"], box["verdict"] = rows, verdict
+        if verdict["n"] != len(rows) + 1:
+            raise vlib.Inconclusive("trace spec consumed %s of %d lines" % (verdict["n"], len(rows) + 1))
+        if (len(rows) + 1) not in verdict["bad"]:
+            raise vlib.Inconclusive("vacuous: TraceAccess.tla accepted the forged canary line")
+        verdict["bad"] = [i for i in verdict["bad"] if i != len(rows) + 1]
+        box["rows"], box["verdict"], box["canary"] = rows, verdict, canary
     except Exception as e:  # noqa: BLE001 - re-raised in the main thread
         box["err"] = e
 
@@ -377,6 +391,8 @@ def run(ctx):
         "trace_rejections_flaky": tr["flaky"],
         "disagreements_by_signature": by_sig, "truncated_by_known_finding": known_n + tr["known"],
         "flaky": counts.get("flaky", 0),
+        "binding_demo": {"corrupted_trace_line_rejected": {"forged": "out=refused over udp", "line": box["canary"]["req"]},
+                         "mutations": "see notes/C03.md (11 code mutations, all caught)"},
         "transport_level": "UDP, TCP, DoT, DoQ, DNSCrypt/UDP: real sockets of a started server, client source addresses under "
                            "127.0.7.0/24 (plain) and through the dual-stack listener (IPv4-mapped peer); DoH: the DoH HTTP handler "
                            "(handleDoH -> proxy.ServeHTTP) with a fabricated TLS connection state; IPv6 / zoned / mapped client "
